@@ -6,6 +6,8 @@
    leaves everything unchanged.                                              *)
 EXTENDS MGState
 
+CONSTANT MaxIxC        \* index-type limit of the bounded model (the trace specs take it from the trace)
+
 avars == <<nd, ed, dir, maxix, stamp, ret, pending>>
 UnchG == UNCHANGED <<nd, ed, dir, maxix, stamp>>
 NoPend == pending' = pending
@@ -30,7 +32,7 @@ NFull == NodeCount = maxix          \* every index the type can name is live
 EFull == EdgeCount = maxix
 
 Init == /\ nd = <<>> /\ ed = <<>> /\ stamp = 0 /\ ret = <<"s", "ok">> /\ pending = {}
-        /\ dir \in BOOLEAN /\ maxix \in {3}
+        /\ dir \in BOOLEAN /\ maxix = MaxIxC
 
 ---------------------------------------------------------------------------
 (* add_node / try_add_node returning index i (the index is a parameter: the model checker tries
@@ -172,7 +174,7 @@ FilterMap(nmap, emap) ==
 
 ---------------------------------------------------------------------------
 CONSTANT W
-Args == 0 .. 3
+Args == 0 .. MaxIxC
 Next ==
     \/ \E w \in W, i \in {x \in Args : x <= Len(nd)} : AddNodeAt(w, i, "ok_i") \/ AddNodeAt(w, i, "i")
     \/ TryAddNodeFull \/ AddNodeFull
